@@ -499,6 +499,9 @@ def chunks(seq, k):
 
 
 def workload(tier, seed):
+    yield "table_class", {"sizes": [(1200, 1, False), (1001, 2, False), (999, 1, False), (3, 1100, True), (2, 1001, True), (40, 40, True)]
+                          if tier == "quick" else [(m, 1, False) for m in (100, 500, 1000, 1001, 1200, 2000)] +
+                          [(2, n, True) for n in (100, 999, 1000, 1001, 1500)] + [(40, 40, True), (41, 40, False), (3, 1100, True)]}
     import random
     quick = tier == "quick"
     for cls in ("CNF", "OPB"):
@@ -756,6 +759,52 @@ def case_history(ctx, cls, rseed):
     for i in range(12):
         S.graph_history_check(ctx, "matching", "PerfectMatchingPrinciple[%s]" % cls,
                               lambda G: g.PerfectMatchingPrinciple(G, formula_class=K), r, n=r.randint(4, 7))
+
+
+def case_table_class(ctx, sizes):
+    """Pigeonhole formulas built into a CNF class of the user's that keeps its clauses in a table of its own (vmon/ducks.py):
+    what the object presents must be the pigeonhole formula -- every pigeon placed, no hole shared -- also for
+    constraints over more than a thousand literals."""
+    from cnfgen.formula.cnf import CNF
+    from ..ducks import table_class
+    from ..refmodels.names import eval_many
+    g = gens()
+    for (m, n, functional) in sizes:
+        T = table_class(CNF)
+        desc = "PigeonholePrinciple(%d,%d,functional=%s)[user CNF class with its own clause table]" % (m, n, functional)
+        F, exc = S.build(ctx, "php", desc, g.PigeonholePrinciple, m, n, functional=functional, formula_class=T)
+        ctx.count("user_class_inputs")
+        if F is None:
+            ctx.count("table_class_declined")
+            continue
+        at = S.decode(ctx, "php", desc, F)
+        if at is None:
+            continue
+        p = at["p_{#,#}"]
+        # placements: an injection when one exists, all pigeons into hole 1, pigeon 1 nowhere, pigeon 1 twice (functional)
+        pool, exp = [], []
+        if m <= n:
+            pool.append({p[(i, i)] for i in range(1, m + 1)})
+            exp.append(True)
+            if m >= 2:
+                pool.append({p[(i, i)] for i in range(1, m + 1)} - {p[(m, m)]} | {p[(m, 1)]})
+                exp.append(False)
+        pool.append({p[(i, 1)] for i in range(1, m + 1)})
+        exp.append(m <= 1)
+        pool.append({p[(i, 1 + (i % n))] for i in range(2, m + 1)})
+        exp.append(False)
+        if functional and n >= 2 and m <= n:
+            pool.append({p[(i, i)] for i in range(1, m + 1)} | {p[(1, n)]} if m < n else {p[(i, i)] for i in range(1, m + 1)} | {p[(1, 2)]})
+            exp.append(False)
+        got = eval_many(F, pool)
+        ctx.count("sampled_cases")
+        ctx.count("sampled_assignments", len(pool))
+        if got != exp:
+            j = next(j for j in range(len(pool)) if got[j] != exp[j])
+            ctx.violation("php:sampled:%s" % ("satisfied-by-non-object" if got[j] else "object-not-a-model"),
+                          "%s: placement #%d %s the formula the object presents (%d clauses), expected the opposite"
+                          % (desc, j, "satisfies" if got[j] else "falsifies", len(F)))
+        ctx.judged(("php-table-class", m, n, functional), sample={"family": "php", "case": desc, "clauses": len(F)})
 
 
 def case_bphp_wide(ctx, cls, m, n):
